@@ -83,5 +83,5 @@ def run(rep):
         r = core.model_check('MC_Assign', mc_cfg(4, fam), workers=16, timeout=2400)
         rep.add_model(f'MC_Assign N=4 Fam={fam}', r)
     rng = np.random.default_rng(rep.seed + 2)
-    recs = collect(rep, rng, 108 if quick else 1620, 24 if quick else 300)
+    recs = collect(rep, rng, 162 if quick else 1620, 24 if quick else 300)
     judge(rep, recs)
